@@ -122,6 +122,20 @@ def rng_field_of(planner):
     return None
 
 
+def _consts_in(node):
+    """every constant operand inside a statement / terminator"""
+    out = []
+    if isinstance(node, dict):
+        if 'const' in node and isinstance(node['const'], dict):
+            out.append(node['const'])
+        for v in node.values():
+            out += _consts_in(v)
+    elif isinstance(node, list):
+        for v in node:
+            out += _consts_in(v)
+    return out
+
+
 def run(ctx, tier):
     r_src = RuleResult('C07.source', 'nondeterminism sources are called only in the unseeded fallback of the rng field')
     r_flow = RuleResult('C07.flow', 'every rng consumer draws from the planner generator (entry points) or forwards its caller\'s (elsewhere)')
@@ -214,6 +228,45 @@ def run(ctx, tier):
                     r_src.violations.append(Violation(
                         'C07', 'C07.source', b.path, 'ptr-to-int',
                         'pointer address converted to an integer on a planning path', loc=b.loc(bi, si)))
+    # process-global mutable state (a `static` with interior mutability, `static mut`, a thread-local): what one planner
+    # instance does then depends on what any other instance did before in the same process, not on the seed
+    import re as _re
+    n_glob = 0
+    for b in scope.values():
+        ordg = {}
+        for bi, blk in enumerate(b.blocks):
+            if blk['cleanup']:
+                continue
+            items = [(si, st) for si, st in enumerate(blk['stmts'])] + [(None, blk['term'])]
+            for si, node in items:
+                if isinstance(node, dict) and node.get('span', {}).get('mac') if isinstance(node.get('span'), dict) else False:
+                    continue
+                for c in _consts_in(node):
+                    dbg = c.get('dbg') or ''
+                    m = _re.match(r'^\{alloc\d+(?:<imm>)?: (&|\*mut |\*const )(.*)\}$', dbg)
+                    if not m:
+                        continue
+                    ty = m.group(2)
+                    mutable = m.group(1) == '*mut ' or any(w in ty for w in (
+                        'atomic::Atomic', 'sync::Mutex', 'sync::RwLock', 'OnceLock', 'OnceCell', 'LazyLock', 'LazyCell', 'cell::Cell',
+                        'cell::RefCell', 'UnsafeCell', 'sync::Once', 'sync::poison::mutex::Mutex', 'sync::poison::rwlock::RwLock'))
+                    if not mutable:
+                        continue
+                    n_glob += 1
+                    k = ordg.get(ty, 0)
+                    ordg[ty] = k + 1
+                    r_src.inst('%s reads a process-global `%s` at %s' % (b.path, ty, b.loc(bi, si)), ok=False, site=b.loc(bi, si))
+                    r_src.violations.append(Violation(
+                        'C07', 'C07.source', b.path, 'global:' + ty,
+                        'process-global mutable state (`static` of type %s) is used on a planning path: what this planner instance does '
+                        'depends on what other instances did earlier in the process, not only on its seed' % ty, loc=b.loc(bi, si), ordinal=k))
+        for bi, t in b.calls():
+            pth = t['func'].get('path', '')
+            if pth.startswith('std::thread::LocalKey') or pth.startswith('std::thread::local::LocalKey'):
+                n_glob += 1
+                r_src.violations.append(Violation('C07', 'C07.source', b.path, 'thread-local',
+                                                  'thread-local state is used on a planning path (%s)' % pth, loc=b.loc(bi)))
+    r_src.inst('process-global mutable state scan of %d functions: %d uses' % (len(scope), n_glob), ok=True, nontrivial=False)
     if not fallback_closures:
         r_src.notes.append('no unseeded-fallback closure found')
     r_src.inst('who-may-call scan of %d functions, %d source call sites' % (len(scope), n_src), ok=True,
